@@ -509,23 +509,30 @@ class BudgetExceeded(Exception):
 
 
 class Site:
-    __slots__ = ("array", "index", "loops", "write", "line")
+    __slots__ = ("array", "index", "loops", "write", "line", "shape")
 
-    def __init__(self, array, index, loops, write, line):
-        self.array, self.index, self.loops, self.write, self.line = array, index, loops, write, line
+    def __init__(self, array, index, loops, write, line, shape=None):
+        self.array, self.index, self.loops, self.write, self.line, self.shape = array, index, loops, write, line, shape
 
 
 def collect_sites(body, lang="c"):
-    """Return (sites, decls) where each site has the IR index expressions and the
-    enclosing loops [(var, begin_expr, end_expr)], and decls maps array name -> shape."""
+    """Return (sites, decls): each site carries the IR index expressions, the enclosing loops
+    [(var, begin_expr, end_expr)] and the shape of the local array visible at that point
+    (None for parameters); decls maps array name -> last declared shape."""
     sites: list[Site] = []
     decls: dict[str, tuple] = {}
-    scalars: set[str] = set()
+    scopes: list[dict] = [{}]
+
+    def shape_of(name):
+        for sc in reversed(scopes):
+            if name in sc:
+                return sc[name]
+        return None
 
     def walk_expr(e, loops, line):
         k = e[0]
         if k == "idx":
-            sites.append(Site(e[1], e[2], list(loops), False, line))
+            sites.append(Site(e[1], e[2], list(loops), False, line, shape_of(e[1])))
             for i in e[2]:
                 walk_expr(i, loops, line)
         elif k == "bin":
@@ -539,7 +546,7 @@ def collect_sites(body, lang="c"):
         elif k == "call":
             for a in e[2]:
                 walk_expr(a, loops, line)
-        elif k in ("init",):
+        elif k == "init":
             for a in e[1]:
                 walk_expr(a, loops, line)
         elif k == "fill":
@@ -550,26 +557,27 @@ def collect_sites(body, lang="c"):
             k = st[0]
             if k == "decl":
                 _, name, tclass, shape, init, quals, line = st
-                if shape is not None:
-                    decls[name] = tuple(shape)
-                else:
-                    scalars.add(name)
                 if init is not None and shape is None:
                     walk_expr(init, loops, line)
+                if shape is not None:
+                    decls[name] = tuple(shape)
+                    scopes[-1][name] = tuple(shape)
             elif k == "assign":
                 _, lhs, op, rhs, line = st
                 if lhs[0] == "idx":
-                    sites.append(Site(lhs[1], lhs[2], list(loops), True, line))
-                    if op != "=":
-                        sites.append(Site(lhs[1], lhs[2], list(loops), False, line))
+                    sites.append(Site(lhs[1], lhs[2], list(loops), True, line, shape_of(lhs[1])))
                     for i in lhs[2]:
                         walk_expr(i, loops, line)
                 walk_expr(rhs, loops, line)
             elif k == "for":
                 _, var, b, e, body, line = st
+                scopes.append({})
                 walk(body, loops + [(var, b, e)])
+                scopes.pop()
             elif k == "block":
+                scopes.append({})
                 walk(st[1], loops)
+                scopes.pop()
 
     walk(body, [])
     return sites, decls
